@@ -26,7 +26,12 @@ var collideHashes = []struct {
 	{"crc32-ieee", func(s string) uint64 { return uint64(crc32.ChecksumIEEE([]byte(s))) }},
 	{"crc32-castagnoli", func(s string) uint64 { return uint64(crc32.Checksum([]byte(s), crc32.MakeTable(crc32.Castagnoli))) }},
 	{"adler32", func(s string) uint64 { return uint64(adler32.Checksum([]byte(s))) }},
-	{"fnv64a-folded", func(s string) uint64 { h := fnv.New64a(); h.Write([]byte(s)); v := h.Sum64(); return (v >> 32) ^ (v & 0xffffffff) }},
+	{"fnv64a-folded", func(s string) uint64 {
+		h := fnv.New64a()
+		h.Write([]byte(s))
+		v := h.Sum64()
+		return (v >> 32) ^ (v & 0xffffffff)
+	}},
 	{"fnv64a-low32", func(s string) uint64 { h := fnv.New64a(); h.Write([]byte(s)); return h.Sum64() & 0xffffffff }},
 }
 
